@@ -65,7 +65,7 @@ add("C19",
 
 add("C03",
     "(F) for finite bounds the set of captures reproducible by in-bound intensities equals the convex hull of the images of the 2^n box corners (both directions, all sizes); "
-    "offset subtraction does not change membership; chromatic (L1-normalised) membership equals membership in the cone over the points. (C) certificate theorems: a checked "
+    "for unbounded sources (ub = inf; mixed bounds are rejected by the library) the reproducible set equals the cone with apex at the capture of the lower bounds that in_hull_from_A tests (unbounded_gamut_is_cone, all sizes, opponent K included); offset subtraction does not change membership; chromatic (L1-normalised) membership equals membership in the cone over the points. (C) certificate theorems: a checked "
     "in-bound x within tol => target reproducible within tol; a checked hyperplane => NO in-bound intensity reproduces the target (for all x), also in the cone form. Every "
     "answer of ReceptorEstimator.in_hull on seeded systems/targets is judged by these checkers in the Coq VM: interior images must be accepted (every configuration), "
     "targets outside by margin must be rejected (finite bounds, full-dimensional gamut), accepted targets must be reproducible within 1e-6.",
@@ -78,7 +78,7 @@ add("C06",
     "(F) EXACTNESS of the Q-model of the basic-solution enumeration, for all sizes: soundness (only in-bound solutions of A'x=b' are kept, so both reported ends of every source are "
     "attained, min<=max, ends within bounds) AND completeness (enumeration_complete / range_is_exact: whenever the capture matrix has m independent columns, every in-bound solution "
     "is bracketed, per source and in both directions, by a kept basic solution -- the fundamental theorem of linear programming for this polytope, proved from scratch over Q: "
-    "Gaussian elimination, Steinitz exchange, purification; 1400 lines, no axioms); the enumeration never aborts. (C) weak-LP-duality theorems: a multiplier vector bounds x_k over "
+    "Gaussian elimination, Steinitz exchange, purification; 1400 lines, no axioms); the enumeration never aborts; the full-rank hypothesis is re-decided exactly inside every verdict (has_basis_b, proved sound), so verdict_gives_exact_range holds case by case: a passing verdict on a real output means the returned ends bracket EVERY in-bound solution within the comparison tolerance, without any further certificate. (C) weak-LP-duality theorems: a multiplier vector bounds x_k over "
     "the WHOLE solution polytope (independent per-case certificate of both ends). Tie: (Xmin, Xmax) of ReceptorEstimator.range_of_solutions / dreye.range_of_solutions agree with the "
     "exact elimination-based enumeration evaluated in the Coq VM, HiGHS dual vectors certify both ends of every source, every spaced solution is re-checked (bounds, reproduction), "
     "out-of-gamut contract (raise / best fit as both ends) judged with separation certificates.",
